@@ -47,6 +47,10 @@ def native(bounds, start, stop):
 
 def replay(data):
     common.use_repo()
+    if data.get('fn') == 'sub':
+        msg = native_sub(data['sa'], data['sb'], data['D'])
+        print(msg or 'contract holds on this input')
+        return 1 if msg else 0
     msg = native([tuple(x) for x in data['bounds']], data['start'], data['stop'])
     print(msg or 'contract holds on this input')
     return 1 if msg else 0
@@ -129,4 +133,186 @@ def ob_smt(run):
                 rp = run.write_replay(oid, {'obligation': oid}, REPLAY % dict(verif=common.VERIF, repo=common.REPO, data={'bounds': bounds, 'start': 0, 'stop': 32}))
                 run.ob(oid, FAILED, 'BND', 'cpython-enum', detail=msg, witness=rp, confirmed=True, func=QN)
     run.bulk('rest_slice on every placement of up to 3 nibble-aligned cells in a 32-bit range (native twin)', cnt - bad, 'BND', 'cpython-enum', 0.0, BOUNDED_OK)
+    return n
+
+
+# ------------------------------------------------------------------------------------------------ substract_mems
+QS = 'miasmx.expression.expression_eval_abstract:eval_abs.substract_mems'
+
+def sub_spec(sa, sb, D, pieces):
+    """pieces: [(lo_bits, hi_bits, addr_offset_bytes_from_a)]: exactly the bits of cell a (sa bits) that the write b (sb bits, D bytes above a)
+       does not cover, each piece at the address of its first byte"""
+    cov = [False] * sa
+    for (lo, hi, off) in pieces:
+        if not (0 <= lo < hi <= sa) or off * 8 != lo: return False
+        for i in range(lo, hi):
+            if cov[i] or (D * 8 <= i < D * 8 + sb): return False
+            cov[i] = True
+    return all(cov[i] or (D * 8 <= i < D * 8 + sb) for i in range(sa))
+
+def native_sub(sa, sb, D):
+    """substract_mems on a real machine: cell a = @sa[ebx+16] holding a recognisable value, write b = @sb[ebx+16+D]"""
+    import logging
+    from miasmx.expression.expression_eval_abstract import eval_abs
+    from miasmx.expression.expression import ExprId, ExprMem, ExprOp, ExprInt, ExprSlice
+    from miasmx.expression.expression_helper import expr_simp
+    from miasmx.tools.modint import uint32
+    ebx = ExprId('ebx', 32)
+    base = ExprOp('+', ebx, ExprInt(uint32(16)))
+    a = ExprMem(expr_simp(base), sa)
+    b = ExprMem(expr_simp(ExprOp('+', ebx, ExprInt(uint32(16 + D)))), sb)
+    V = ExprId('V', sa)
+    m = eval_abs({ebx: ebx}, log=logging.getLogger('verif.null'))
+    m.pool[a] = V
+    try:
+        out = m.substract_mems(a, b)
+    except Exception as ex:
+        return 'substract_mems raised %s: %s' % (type(ex).__name__, ex)
+    pieces = []
+    for (cell, val) in out:
+        if not isinstance(cell, ExprMem): return 'piece %s is not a memory cell' % cell
+        d = expr_simp(ExprOp('-', cell.arg, a.arg))
+        if not isinstance(d, ExprInt): return 'piece address %s is not at a constant offset of the cell' % cell.arg
+        off = int(d.arg)
+        if off >= 1 << 31: off -= 1 << 32
+        if val is V and sa == cell.size: lo, hi = 0, sa
+        elif isinstance(val, ExprSlice) and val.arg is V: lo, hi = val.start, val.stop
+        else: return 'piece value %s is not a slice of the old content' % val
+        if hi - lo != cell.size: return 'piece %s holds %d bits' % (cell, hi - lo)
+        pieces.append((int(lo), int(hi), off))
+    if not sub_spec(sa, sb, D, pieces):
+        return 'substract_mems(@%d[p], @%d[p%+d]) keeps %s: not the uncovered part of the old cell' % (sa, sb, D, pieces)
+    return None
+
+def ob_sub(run):
+    """eval_abs.substract_mems: the pieces of an overlapped cell that survive a write, for all overlapping pointer differences"""
+    import z3
+    from pyvc import engine
+    from pyvc.engine import is_sym
+    from pyvc.runner import resolve
+    from pyvc.contract import Contract, SObj
+    from specs.duck import And, Or, Not
+    import contracts.modint as cm
+    import miasmx.expression.expression_eval_abstract as EA
+    import miasmx.expression.expression as X
+    import miasmx.tools.modint as MI
+    mod, node, seg, path = resolve(QS)
+    run.function(QS, seg, path, node.lineno)
+    XM = 'miasmx.expression.expression'
+    n = 0
+    for sa in (8, 16, 32, 64):
+        for sb in (8, 16, 32, 64):
+            st = {}
+            C = dict(cm.CONTRACTS)
+            for k in ('ExprOp', 'ExprInt', 'ExprMem', 'ExprSlice'):
+                C['%s:%s.__init__' % (XM, k)] = Contract('%s.__init__' % k, inline=True)
+            C['%s:ExprSlice.get_size' % XM] = Contract('ExprSlice.get_size', inline=True)
+            def r_eval(ctx, me, ex, cache):
+                o = SObj(X.ExprId, {}, fresh=True); object.__setattr__(o, 'evaluated', ex); return o
+            C['miasmx.expression.expression_eval_abstract:eval_abs.eval_expr'] = Contract('eval_expr', result=r_eval)
+            def r_simp(ctx, ev, st=st):
+                ex = getattr(ev, 'evaluated', None)
+                if not (isinstance(ex, SObj) and ex.cls is X.ExprOp): raise engine.Unsupported('expr_simp of something else than an evaluated operation')
+                op, args = ex.fields['op'], ex.fields['args']
+                if op == '-' and len(args) == 2 and args[0] is st['B'] and args[1] is st['A']:
+                    return SObj(X.ExprInt, {'arg': SObj(MI.uint32, {'arg': st['D'] % (1 << 32)}, fresh=True)}, fresh=True)
+                if op == '+' and len(args) == 2 and args[0] in (st['A'], st['B']) and isinstance(args[1], SObj) and args[1].cls is X.ExprInt:
+                    o = SObj(X.ExprId, {}, fresh=True)
+                    object.__setattr__(o, 'base', args[0]); object.__setattr__(o, 'off', args[1].fields['arg'].fields['arg'])
+                    return o
+                raise engine.Unsupported('expr_simp of an unexpected address expression %s' % op)
+            C['miasmx.expression.expression_helper:expr_simp'] = Contract('expr_simp', result=r_simp)
+            # moduint(x) of a real-valued whole number (true division in the body): delegated to the C14 contract on ToInt(x); a fractional argument
+            # is a failed call precondition.  (CPython keeps the float as .arg; that it behaves like the integer afterwards is assumed.)
+            base_c = cm.CONTRACTS['miasmx.tools.modint:moduint.__init__']
+            def as_int(x):
+                if is_sym(x) and z3.is_real(x): return z3.ToInt(x)
+                if isinstance(x, float): return int(x)
+                return x
+            def pre_mi(ctx, me, x):
+                if is_sym(x) and z3.is_real(x): return z3.IsInt(x)
+                if isinstance(x, float): return x == int(x)
+                return base_c.pre(ctx, me, x)
+            C['miasmx.tools.modint:moduint.__init__'] = Contract('moduint.__init__', pre=pre_mi, post=lambda ctx, res, me, x: base_c.post(ctx, res, me, as_int(x)),
+                                                                 result=lambda ctx, me, x: base_c.result(ctx, me, as_int(x)), frame=['self.arg'])
+            # pool lookup of the old cell, and slicing of its content (Expr.__getitem__ under the precondition that makes slice.indices the identity)
+            C['miasmx.expression.expression_eval_abstract:mpool.__getitem__'] = Contract('mpool.__getitem__', pre=lambda ctx, p, k, st=st: k is st['a'], result=lambda ctx, p, k, st=st: st['V'])
+            def pre_gi(ctx, v, sl, sa=sa):
+                return And(sl.step is None, sl.start >= 0, sl.start <= sl.stop, sl.stop <= sa)
+            def r_gi(ctx, v, sl):
+                return SObj(X.ExprSlice, {'arg': v, 'start': sl.start, 'stop': sl.stop}, fresh=True)
+            C['%s:Expr.__getitem__' % XM] = Contract('Expr.__getitem__', pre=pre_gi, result=r_gi)
+            def make_args(ctx, sa=sa, sb=sb, st=st):
+                A, B = SObj(X.ExprId, {}, fresh=False), SObj(X.ExprId, {}, fresh=False)
+                a = SObj(X.ExprMem, {'arg': A, 'size': sa, 'segm': None}, fresh=False)
+                b = SObj(X.ExprMem, {'arg': B, 'size': sb, 'segm': None}, fresh=False)
+                D = z3.Int('D')
+                V = SObj(X.ExprId, {'size': sa}, fresh=False)
+                me = SObj(EA.eval_abs, {'pool': SObj(EA.mpool, {}, fresh=False)}, fresh=False)
+                st.update(A=A, B=B, a=a, b=b, D=D, V=V)
+                return [me, a, b], {'D': D}
+            def pre(ctx, me, a, b, sa=sa, sb=sb, st=st):
+                # the call site (eval_instr after get_mem_overlapping): the two cells overlap
+                return And(st['D'] * 8 > -sb, st['D'] * 8 < sa)
+            def post(ctx, res, me, a, b, sa=sa, sb=sb, st=st):
+                D = st['D']
+                if not isinstance(res, list): return False
+                cl = []; tot = 0; ivs = []
+                for it in res:
+                    if not (isinstance(it, tuple) and len(it) == 2): return False
+                    cell, val = it
+                    if not (isinstance(cell, SObj) and cell.cls is X.ExprMem and isinstance(val, SObj) and val.cls is X.ExprSlice and val.fields['arg'] is st['V']): return False
+                    lo, hi = val.fields['start'], val.fields['stop']
+                    p = cell.fields['arg']
+                    if p is st['A']: off = 0
+                    elif getattr(p, 'base', None) is st['A']: off = p.off
+                    elif getattr(p, 'base', None) is st['B']: off = p.off + D
+                    else: return False
+                    cl += [lo >= 0, lo < hi, hi <= sa, off * 8 == lo, cell.fields['size'] == hi - lo, Or(hi <= D * 8, lo >= D * 8 + sb)]
+                    for (l2, h2) in ivs: cl.append(Or(hi <= l2, lo >= h2))
+                    ivs.append((lo, hi)); tot = tot + (hi - lo)
+                # covered by b: the intersection of [D*8, D*8+sb) with [0, sa)
+                lo_b = z3.If(D * 8 > 0, D * 8, 0); hi_b = z3.If(D * 8 + sb < sa, D * 8 + sb, sa)
+                cl.append(tot + (hi_b - lo_b) == sa)
+                return And(*cl)
+            top = Contract(QS, pre=pre, post=post, frame=[])
+            base = 'C07:substract_mems[a=%d,b=%d]' % (sa, sb)
+            V = engine.verify_function(QS, node, vars(mod), top, C, make_args)
+            if V.unsupported:
+                run.ob(base + ':generate', DOWNGRADED, 'SMT-A', 'pyvc', detail=V.unsupported, func=QS); continue
+            if not V.cover:
+                run.ob(base + ':cover', ENGINE_ERR, 'SMT-A', 'z3', detail='precondition unsatisfiable', func=QS); continue
+            for cl, d in sorted(V.clauses.items()):
+                n += 1
+                oid = base + ':' + cl
+                if d['status'] == 'unsat':
+                    run.ob(oid, DISCHARGED, 'SMT-A', 'z3', d['secs'], func=QS)
+                elif d['status'] == 'sat':
+                    w = d['witness'] or {}
+                    try:
+                        Dv = int(w['D']); msg = native_sub(sa, sb, Dv)
+                    except Exception as ex:
+                        Dv, msg = 0, None
+                    data = {'fn': 'sub', 'sa': sa, 'sb': sb, 'D': Dv}
+                    rp = run.write_replay(oid, {'obligation': oid, 'inputs': w, 'verifier': d['detail']}, REPLAY % dict(verif=common.VERIF, repo=common.REPO, data=data))
+                    if msg is None:
+                        run.ob(oid, DOWNGRADED, 'SMT-A', 'z3', d['secs'], detail='counter-model %s (%s) does not replay on the real function; bounded twin below' % (w, d['detail']), func=QS)
+                    else:
+                        run.ob(oid, FAILED, 'SMT-A', 'z3', d['secs'], detail='%s; counterexample %s; native: %s' % (d['detail'], w, msg), witness=rp, confirmed=True, func=QS)
+                else:
+                    run.ob(oid, DOWNGRADED, 'SMT-A', 'z3', d['secs'], detail='solver unknown', func=QS)
+    # twin: every overlapping placement
+    cnt = bad = 0
+    for sa in (8, 16, 32, 64):
+        for sb in (8, 16, 32, 64):
+            for D in range(-sb // 8 + 1, sa // 8):
+                cnt += 1
+                msg = native_sub(sa, sb, D)
+                if msg:
+                    bad += 1
+                    if bad <= 3:
+                        oid = 'C07:substract_mems[a=%d,b=%d]:twin' % (sa, sb)
+                        rp = run.write_replay(oid, {'obligation': oid}, REPLAY % dict(verif=common.VERIF, repo=common.REPO, data={'fn': 'sub', 'sa': sa, 'sb': sb, 'D': D}))
+                        run.ob(oid, FAILED, 'BND', 'cpython-enum', detail=msg, witness=rp, confirmed=True, func=QS)
+    run.bulk('substract_mems on every overlapping placement of 1/2/4/8-byte cells (native twin)', cnt - bad, 'BND', 'cpython-enum', 0.0, BOUNDED_OK)
     return n
